@@ -154,6 +154,7 @@ static int next(sqfs_dir_iterator_t *base, sqfs_dir_entry_t **out)
 					  strlen(name) + 1);
 		if (it->next_top == NULL) {
 			sqfs_drop(sub);
+			ret = SQFS_ERROR_ALLOC;
 			goto fail;
 		}
 
